@@ -514,8 +514,12 @@ void run_fmgstart(const Value& plan, Result& r)
         }
     }
     // discretisation-level accuracy: with >= 1 cycle per level the start's error is of the order of the converged one
-    if (o.fmg_iterations >= 1 && o.with_exact && o.extrapolation != 2) {
+    // (The yardstick is the converged solution of the plain second-order discretisation: nested iteration with the FMG
+    //  interpolation reaches that level; the extrapolated scheme's higher accuracy only comes with the iteration.  The
+    //  documented default of one pre- and one post-smoothing step is required.)
+    if (o.fmg_iterations >= 1 && o.with_exact && o.extrapolation != 2 && o.pre >= 1 && o.post >= 1) {
         SolverOpts o3     = o;
+        o3.extrapolation  = 0;
         o3.max_iterations = 150;
         o3.abs_tol        = 1e-10;
         o3.rel_tol        = -1;
